@@ -1206,6 +1206,11 @@ def runOcfr : P String := do
                 | last :: rest => (rest.take 99).all (· == last)))) then
           "VIOLATION D27-shape corrupted object count: one datum error (or one zero-size value) per claimed object, no end of stream within 400 calls"
         else "VIOLATION the reader does not reach end of stream (endless yields)")
+      else if kind == "cap" then
+        -- a reader with a caller-set allocation cap: which fields meet the cap depends on what
+        -- the underlying reader has buffered, so back-ends legitimately differ; the outcome of
+        -- each one is the model's (correspondence), and each reaches end of stream
+        "ok"
       else if !c11 then
         (if d19shape then "VIOLATION D19-shape corrupted block: outcomes agree up to the first error, then the slice back-end (recoverable datum error) carries on while a reader (I/O error at end of input) stops"
          else if d16shape then "VIOLATION D16-shape declared block size exceeds the remaining input: the slice back-end rejects the block up front, a reader yields the objects it can decode first"
